@@ -36,7 +36,7 @@ def plan(tier):
 
 def floors(tier):
     return {"min_decided": 1200, "counters": {"risk_evals": 5000, "history_evals": 1000, "hedges_exact": 150, "hedges_pseudo": 100, "close_calls": 2000,
-                                              "closes_done": 200, "rolls_done": 150, "select_active_evals": 1500, "risk_bt_evals": 3000}, "max_undecided_frac": 0.3}
+                                              "closes_done": 200, "rolls_done": 150, "select_active_evals": 1500, "risk_bt_evals": 3000, "pretrades": 300}, "max_undecided_frac": 0.3}
 
 
 def mk_tree(rng, names, mults):
@@ -273,6 +273,27 @@ class ActiveSpy(bt.Algo):
         return True
 
 
+class PreTrade(bt.Algo):
+    """scripted quantity trades placed in front of the close / roll algo (as a hedging or execution algo earlier in the stack would): they leave
+    the tree stale, so the close / roll acts on positions changed moments ago. Names already marked closed / rolled are left alone."""
+
+    def __init__(self, script, ctx):
+        super(PreTrade, self).__init__()
+        self.script = script      # [(date, name, quantity)]
+        self.ctx = ctx
+        self.run_always = True
+
+    def __call__(self, target):
+        gone = set(target.perm.get("closed", set())) | set(target.perm.get("rolled", set()))
+        for d, nm, q in self.script:
+            if d == target.now and nm not in gone:
+                px = target.universe.loc[target.now, nm]
+                if px == px and px > 0:
+                    target.transact(q, child=nm)
+                    common.bump(self.ctx.cnt, "pretrades")
+        return True
+
+
 def case_close_roll(cs, which):
     ins.install()
     ins.reset()
@@ -312,6 +333,15 @@ def case_close_roll(cs, which):
         head = [sch, first]
     else:
         head = [first, sch] if rng.random() < 0.5 else [sch, first]
+    if rng.random() < 0.5:
+        # quantity trades on and around the scheduled dates, in the scheduled names (and others), right before the close / roll algo runs
+        script = []
+        for nm in list(tab.index) + rng.sample(names, 1):
+            base = tab.loc[nm, "date"] if nm in tab.index else dts[rng.randint(1, nd - 1)]
+            for _ in range(rng.randint(1, 2)):
+                d = base + pd.Timedelta(days=rng.choice([0, 0, 0, 1, -1]))
+                script.append((d, nm, rng.choice([-1, 1]) * rng.randint(5, 400)))
+        head = [PreTrade(script, ctx)] + head
     if fi:
         kids = [FixedIncomeSecurity(nm) for nm in names]
         s = FixedIncomeStrategy("s", head + body + [algos.SetNotional("nv"), algos.Rebalance()], children=kids)
